@@ -671,8 +671,33 @@ pub fn check_history(hist: &Hist, rep: &mut Report) {
     if !ops.iter().any(|o| o.op == OP_MAXCOST) && hist.h.vld_mode == 0 {
         let cost_of: HashMap<u64, i64> = ops.iter().filter(|o| matches!(o.op, OP_INSERT | OP_IF_PRESENT)).map(|o| (o.id, o.cost)).collect();
         let resident_cost: i64 = hist.snap.store.iter().map(|e| cost_of.get(&e.tag).copied().unwrap_or(0)).sum();
-        // in-place updates may push the total over max_cost until the next admission: at most by their own cost
-        let update_slack: i64 = ops.iter().filter(|o| matches!(o.op, OP_INSERT | OP_IF_PRESENT) && o.update_path).map(|o| o.cost).max().unwrap_or(0) * hist.h.keys as i64;
+        // in-place updates may push the total over max_cost until the next admission: each resident value
+        // written in place may cost more than the admitted value at the start of its chain of updates
+        // (followed through the values each update handed to on_exit); that difference is the slack
+        let writer_of: HashMap<u64, &OpRec> = ops.iter().filter(|o| matches!(o.op, OP_INSERT | OP_IF_PRESENT) && o.id != 0).map(|o| (o.id, o)).collect();
+        let mut update_slack: i64 = 0;
+        for e in hist.snap.store.iter() {
+            let Some(w) = writer_of.get(&e.tag) else { continue };
+            if !w.update_path {
+                continue;
+            }
+            let mut cur = *w;
+            let mut admitted_cost: Option<i64> = None;
+            for _ in 0..100_000 {
+                match writer_of.get(&cur.exited_id) {
+                    Some(prev) if prev.update_path => cur = *prev,
+                    Some(prev) => {
+                        admitted_cost = Some(prev.cost);
+                        break;
+                    }
+                    None => break,
+                }
+            }
+            update_slack += match admitted_cost {
+                Some(a) => (w.cost - a).max(0),
+                None => w.cost, // chain lost (in-place write through get_mut, unknown ancestor): allow the whole cost
+            };
+        }
         rep.count("ho_c01_resident_cost_checks");
         if resident_cost > hist.h.cfg.max_cost + update_slack {
             rep.violate("C01", "resident-cost/over-max", format!("at quiescence the resident entries cost {resident_cost} in total, max_cost is {} (the policy says used = {})", hist.h.cfg.max_cost, hist.snap.used), json!({"history": d, "resident": hist.snap.store.iter().map(|e| (e.index, cost_of.get(&e.tag).copied().unwrap_or(0))).collect::<Vec<_>>(), "policy": hist.snap.costs}));
